@@ -519,8 +519,12 @@ def run(ctx: Context) -> None:
             from .common import emptiness_test
             t = emptiness_test(flow, filt[0].test)
             guard_ok = t is not None and t[0] == 'nonempty' and flow.canon(t[1]) == flow.canon(stores[0].targets[0].slice)
-            # `<boolean array>.any()` / numpy.any(<boolean array>): some position is selected
+            # `<boolean array>.any()` / numpy.any(<boolean array>): some position is selected.  Of an array of *positions*
+            # (flatnonzero, where) `.any()` asks whether some position is not 0: the cell at index 0 alone would be let through.
             g_ = filt[0].test
+            boolean_selection = isinstance(idx_expr, (ast.BinOp, ast.UnaryOp, ast.Compare))
+            if not boolean_selection and isinstance(g_, ast.Call) and ((isinstance(g_.func, ast.Attribute) and g_.func.attr == 'any') or callee(ctx, pg, g_) == 'numpy.any'):
+                g_ = ast.Constant(value=None)
             if isinstance(g_, ast.Call) and isinstance(g_.func, ast.Attribute) and g_.func.attr == 'any' and not g_.args and flow.canon(g_.func.value) == flow.canon(stores[0].targets[0].slice):
                 guard_ok = True
             if isinstance(g_, ast.Call) and callee(ctx, pg, g_) == 'numpy.any' and len(g_.args) == 1 and flow.canon(g_.args[0]) == flow.canon(stores[0].targets[0].slice):
@@ -599,6 +603,7 @@ VARIANTS = [
     V('C06', 'shoc-unguarded-attr', _S, "                and variable.attrs.get(\"standard_name\") == \"latitude\"", "                and variable.attrs[\"standard_name\"] == \"latitude\"", 'R06.5'),
     V('C06', 'invalid-indices-compressed', _B, "        invalid_polygon_indices = numpy.flatnonzero(not_none & ~shapely.is_valid(polygons))", "        invalid_polygon_indices = numpy.flatnonzero(~shapely.is_valid(polygons[not_none]))", 'R06.6'),
     V('C06', 'filter-bypassed', _B, "        polygons = self._make_polygons()\n\n        not_none", "        polygons = self._make_polygons()\n        if polygons.size > 100000:\n            return polygons\n\n        not_none", 'R06.6'),
+    V('C06', 'invalid-positions-any', _B, "        if len(invalid_polygon_indices):\n", "        if invalid_polygon_indices.any():\n", 'R06.6', note='position 0 is falsy'),
     V('C06', 'invalid-kept', _B, "            polygons[invalid_polygon_indices] = None\n", "", 'R06.6'),
     V('C06', 'extent-slots-permuted', _G, "        return (min_x, min_y, max_x, max_y)", "        return (min_x, max_x, min_y, max_y)", 'R06.7'),
     V('C06', 'grid-extent-from-raw-bounds', _G, "        min_x, min_y, max_x, max_y = shapely.total_bounds(self.polygons[self.mask])\n", "        topology = self.topology\n        min_x, max_x = numpy.nanmin(topology.longitude_bounds), numpy.nanmax(topology.longitude_bounds)\n        min_y, max_y = numpy.nanmin(topology.latitude_bounds), numpy.nanmax(topology.latitude_bounds)\n", 'R06.7'),
